@@ -9,6 +9,9 @@ from crysp.poly import Poly
 from crysp.utils.operators import *
 from crysp import salsa20
 
+import os
+_VERIF = os.environ.get('BDCHT_CRYSP_VERIF')=='1'
+
 cM    = salsa20.rMinv
 cMinv = salsa20.rM
 rM    = [0,5,10,15,1,6,11,12,2,7,8,13,3,4,9,14]
@@ -32,6 +35,7 @@ class Chacha(salsa20.Salsa20):
         self.p[14:16] = v.split(32)
         maxlen = 1<<64
         i = 0
+        if _VERIF: i = getattr(self,'_verif_block0',0)
         while i<maxlen:
             self.p[12:14] = (i&0xffffffff,i>>32)
             yield self.core(self.p,dround=self.dround)
